@@ -1449,7 +1449,7 @@ Proof.
     t_outs t = map (fun p => (std_dest (fst p), snd p)) na ++ (if change =? 0 then [] else [(std_dest caddr, change)]) /\
     t_fee t = charged /\
     Forall (fun o => is_dust std_pk_len (snd o) = false) (t_outs t)).
-  { intros na change fee charged _ Hbal Hr.
+  { intros na change fee charged _ Hbal Hr. clear H Hm0.
     destruct (negb (m_amounts_ok r)); [discriminate|].
     destruct (negb (change =? 0) && negb caddr_ok)%bool; [discriminate|].
     destruct (existsb _ _) eqn:Hd; [discriminate|].
@@ -1469,7 +1469,7 @@ Proof.
   - (* no change *)
     apply Z.eqb_eq in Ez.
     pose proof (msf_spec _ _ _ _ _ Hm0) as Hs. rewrite Ef0 in Hs.
-    specialize (Hs (required_fee_range _ (Hpos _ ltac:(lia))) Hwf). cbv zeta in Hs.
+    specialize (Hs (required_fee_range _ (Hpos (Z.of_nat (length (m_amounts r))) ltac:(lia))) Hwf). cbv zeta in Hs.
     destruct Hs as [Ena [Etot [Hch Hkeys]]].
     set (nsel := Z.of_nat (length (m_subfee r))) in *.
     set (req0 := required_fee (estimate_signed_size (Z.of_nat (length (m_ins r))) (Z.of_nat (length (m_amounts r))) 0)) in *.
@@ -1489,7 +1489,7 @@ Proof.
     destruct (maybe_subtract_fee (m_amounts r) (m_subfee r) fee1) as [[na1 tot1]|e|] eqn:Hm1; try discriminate.
     destruct (total_in <=? tot1) eqn:Hle1; [discriminate|]. apply Z.leb_gt in Hle1.
     pose proof (msf_spec _ _ _ _ _ Hm1) as Hs. rewrite Ef1 in Hs.
-    specialize (Hs (required_fee_range _ (Hpos _ ltac:(lia))) Hwf). cbv zeta in Hs.
+    specialize (Hs (required_fee_range _ (Hpos (Z.of_nat (length (m_amounts r)) + 1) ltac:(lia))) Hwf). cbv zeta in Hs.
     destruct Hs as [Ena [Etot [Hch Hkeys]]].
     set (nsel := Z.of_nat (length (m_subfee r))) in *.
     set (req1 := required_fee (estimate_signed_size (Z.of_nat (length (m_ins r))) (Z.of_nat (length (m_amounts r)) + 1) 0)) in *.
@@ -1503,6 +1503,387 @@ Proof.
     rewrite Eti, Hlo, <- Hnin. fold req1. cbv zeta.
     repeat split; auto; try lia; try congruence.
     + rewrite Eouts, sum_outs_app, sum_outs_map_std. simpl. lia.
-    + rewrite Eouts, Ena. reflexivity.
     + right. exists (total_in - tot1). split; [lia|]. now rewrite Ecaddr.
 Qed.
+
+(* ================================================================== part 9: witnesses *)
+
+(* C02_manual_no_dup: refuted. The same explicit input twice is accepted and counted twice: a
+   wallet owning one coin of 100000 builds a transaction paying 150000 + 45540 change, fee 4460.
+   (Replayed on the real wallet: harness/cmd/c02 corpus scenario 1.) *)
+Definition dup_coin : kout := mkK 1 100000 1 0 0 6 true true true.
+Definition dup_req : mreq := mkM [MOut dup_coin; MOut dup_coin] [(4, 150000)] true 0 None true [].
+Definition dup_tx : otx := mkTx [(1, max_seq); (1, max_seq)] [(std_dest 4, 150000); (std_dest 1, 45540)] 4460.
+
+Lemma manual_no_dup_refuted :
+  exists r t ids, mreq_wf r /\ create_raw_sel r = Ok (t, ids) /\ ~ NoDup (map fst (t_ins t)) /\
+    (* the only coin involved is worth less than what the transaction pays out *)
+    (forall k, In (MOut k) (m_ins r) -> k = dup_coin) /\ k_amt dup_coin < sum_outs (t_outs t).
+Proof.
+  exists dup_req, dup_tx, [1; 1]. split; [|split; [|split; [|split]]].
+  - unfold mreq_wf. simpl. lia.
+  - vm_compute. reflexivity.
+  - simpl. intros H. inversion H as [|x l Hn _]; subst. apply Hn. now left.
+  - intros k [H|[H|[]]]; now injection H as <-.
+  - vm_compute. reflexivity.
+Qed.
+
+(* the sharp "succeeds iff funds suffice" is refuted: one mature coin of 100000, request 89999 with
+   user fee 0. The loop asks for 99999, gets 100000, refuses the change of 1 (below the relay
+   minimum) and asks for 109999: insufficient. Yet the transaction that gives the surplus to the
+   fee satisfies every clause of the property. (Replayed on the real wallet: corpus scenario 0.) *)
+Definition slack_st : wstate := mkW [mkU 1 100000 1 1 0 0 false false] [1] [] [].
+Definition slack_req : areq := mkA [(std_dest 4, 89999)] true 0 0 None None true 0.
+Definition slack_tx : otx := mkTx [(1, max_seq)] [(std_dest 4, 89999)] 10001.
+
+Lemma exact_iff_refuted :
+  exists st r t, areq_wf r /\ wf st /\ req_valid st r /\
+    auto_create st r = Err EInsufficient /\
+    auto_tx_check st r t = [] /\
+    sum_outs (a_outs r) + init_target (a_userfee r) <= usum (elig st r) /\
+    usum (elig st r) < sum_outs (a_outs r) + init_target (a_userfee r) + min_relay.
+Proof.
+  exists slack_st, slack_req, slack_tx.
+  split; [|split; [|split; [|split; [|split; [|split]]]]].
+  - unfold areq_wf. simpl. repeat split; try lia. repeat constructor. simpl. lia.
+  - unfold wf. simpl. repeat constructor. intros [].
+  - unfold req_valid. simpl. repeat split; auto; try discriminate. repeat constructor. simpl. lia.
+  - vm_compute. reflexivity.
+  - vm_compute. reflexivity.
+  - vm_compute. discriminate.
+  - vm_compute. reflexivity.
+Qed.
+
+(* non-vacuity: a creation that succeeds, with change, after one fee-loop round trip *)
+Definition ex_st : wstate :=
+  mkW [mkU 1 50000 1 3 0 0 false false; mkU 2 70000 2 3 0 0 false false; mkU 3 900000 1 1 4 0 false false;
+       mkU 4 300000 1 9 3 1 false false; mkU 5 20000 2 5 0 0 false true] [1; 2] [] [].
+Definition ex_req : areq := mkA [(std_dest 7, 60000); (std_dest 8, 30000)] true 1 0 None None true 0.
+Example ex_auto_create :
+  exists st', auto_create ex_st ex_req =
+    Ok (mkTx [(2, max_seq); (1, max_seq)] [(std_dest 7, 60000); (std_dest 8, 30000); (std_dest 2, 24910)] 5090, st')
+  /\ w_reserved st' = [2; 1] /\ auto_tx_check ex_st ex_req
+       (mkTx [(2, max_seq); (1, max_seq)] [(std_dest 7, 60000); (std_dest 8, 30000); (std_dest 2, 24910)] 5090) = [].
+Proof. eexists. split; [|split]; vm_compute; reflexivity. Qed.
+
+(* ================================================================== part 10: the heap keeps the k largest *)
+
+Section HeapProofs.
+Variable A : Type.
+Variable amt : A -> Z.
+Notation sum := (sum_amt amt).
+
+Lemma nth_error_upd_eq (l : list A) : forall i x, (i < length l)%nat -> nth_error (upd l i x) i = Some x.
+Proof.
+  induction l as [|h t IH]; intros [|i] x H; simpl in *; try lia; auto. apply IH. lia.
+Qed.
+
+Lemma nth_error_swap (b : list A) i j a c p :
+  nth_error b i = Some a -> nth_error b j = Some c -> i <> j ->
+  nth_error (swap b i j) p =
+    if (p =? i)%nat then Some c else if (p =? j)%nat then Some a else nth_error b p.
+Proof.
+  intros Hi Hj Hij. unfold swap. rewrite Hi, Hj.
+  assert (Hli : (i < length b)%nat) by (apply nth_error_Some; congruence).
+  assert (Hlj : (j < length b)%nat) by (apply nth_error_Some; congruence).
+  destruct (p =? i)%nat eqn:Epi.
+  - apply Nat.eqb_eq in Epi. subst p. rewrite nth_error_upd_neq by auto. now apply nth_error_upd_eq.
+  - apply Nat.eqb_neq in Epi. destruct (p =? j)%nat eqn:Epj.
+    + apply Nat.eqb_eq in Epj. subst p. apply nth_error_upd_eq. now rewrite upd_length.
+    + apply Nat.eqb_neq in Epj. rewrite !nth_error_upd_neq by auto. reflexivity.
+Qed.
+
+Lemma swap_length (b : list A) i j : length (swap b i j) = length b.
+Proof. unfold swap. destruct (nth_error b i), (nth_error b j); auto. now rewrite !upd_length. Qed.
+
+(* min-heap order at position p / from position lo on / everywhere but at cur *)
+Definition ok_at (b : list A) (p : nat) : Prop :=
+  forall c vp vc, (c = 2 * p + 1 \/ c = 2 * p + 2)%nat ->
+    nth_error b p = Some vp -> nth_error b c = Some vc -> amt vp <= amt vc.
+Definition heap_from (lo : nat) (b : list A) : Prop := forall p, (lo <= p)%nat -> ok_at b p.
+Definition hx (lo cur : nat) (b : list A) : Prop :=
+  (forall p, (lo <= p)%nat -> p <> cur -> ok_at b p) /\
+  (forall pp c vpp vc, (lo <= pp)%nat -> (cur = 2 * pp + 1 \/ cur = 2 * pp + 2)%nat ->
+     (c = 2 * cur + 1 \/ c = 2 * cur + 2)%nat ->
+     nth_error b pp = Some vpp -> nth_error b c = Some vc -> amt vpp <= amt vc).
+
+Lemma half_lt k cur : (cur < k / 2)%nat -> (2 * cur + 2 <= k)%nat.
+Proof. intros H. pose proof (Nat.mul_div_le k 2 ltac:(lia)). lia. Qed.
+
+Lemma half_ge k cur : ~ (cur < k / 2)%nat -> (k <= 2 * cur + 1)%nat.
+Proof. intros H. pose proof (Nat.mul_succ_div_gt k 2 ltac:(lia)). lia. Qed.
+
+Lemma adjust_length f k : forall (b : list A) cur, length (adjust amt f k b cur) = length b.
+Proof. intros b cur. apply Permutation_length. apply adjust_perm. Qed.
+
+(* sift-down restores the heap order *)
+Lemma adjust_heap f : forall k (b : list A) cur lo,
+  length b = k -> (lo <= cur)%nat -> hx lo cur b -> (k / 2 - cur < f)%nat ->
+  heap_from lo (adjust amt f k b cur).
+Proof.
+  induction f as [|f IH]; intros k b cur lo Hlen Hlo [H1 H2] Hf; [lia|].
+  cbn [adjust]. destruct (cur <? k / 2)%nat eqn:Ecur.
+  2:{ apply Nat.ltb_ge in Ecur. assert (Hk : (k <= 2 * cur + 1)%nat) by (apply half_ge; lia).
+      intros p Hp. destruct (Nat.eq_dec p cur) as [->|Hne]; [|now apply H1].
+      intros c vp vc Hc _ Hvc. exfalso.
+      assert ((c < length b)%nat) by (apply nth_error_Some; congruence). lia. }
+  apply Nat.ltb_lt in Ecur. pose proof (half_lt _ _ Ecur) as Hk.
+  destruct (nth_error b cur) as [vcur|] eqn:Ecv.
+  2:{ apply nth_error_None in Ecv. lia. }
+  destruct (nth_error b (2 * cur + 1)) as [v0|] eqn:E0.
+  2:{ apply nth_error_None in E0. lia. }
+  set (child := match nth_error b (2 * cur + 1 + 1) with
+                | Some v1 => if ((2 * cur + 1 + 1 <? k)%nat && (amt v1 <? amt v0))%bool
+                             then (2 * cur + 1 + 1)%nat else (2 * cur + 1)%nat
+                | None => (2 * cur + 1)%nat end).
+  (* the chosen child is a child, and not larger than either child *)
+  assert (Hchild : (child = 2 * cur + 1 \/ child = 2 * cur + 2)%nat /\
+            exists vch, nth_error b child = Some vch /\ amt vch <= amt v0 /\
+              (forall v1, nth_error b (2 * cur + 2) = Some v1 -> amt vch <= amt v1)).
+  { unfold child. replace (2 * cur + 1 + 1)%nat with (2 * cur + 2)%nat by lia.
+    destruct (nth_error b (2 * cur + 2)) as [v1|] eqn:E1.
+    - destruct ((2 * cur + 2 <? k)%nat && (amt v1 <? amt v0))%bool eqn:Eb.
+      + apply andb_true_iff in Eb. destruct Eb as [_ Eb]. apply Z.ltb_lt in Eb.
+        split; [now right|]. exists v1. repeat split; auto; try lia. intros v Hv. injection Hv as <-. lia.
+      + split; [now left|]. exists v0. repeat split; auto; try lia. intros v Hv. injection Hv as <-.
+        apply andb_false_iff in Eb. destruct Eb as [Eb|Eb].
+        * apply Nat.ltb_ge in Eb. assert ((2 * cur + 2 < length b)%nat) by (apply nth_error_Some; congruence). lia.
+        * apply Z.ltb_ge in Eb. lia.
+    - split; [now left|]. exists v0. repeat split; auto; try lia. discriminate. }
+  destruct Hchild as [Hcc [vch [Ech [Hv0 Hv1]]]]. rewrite Ech.
+  assert (Hne : cur <> child) by lia.
+  destruct (amt vch <? amt vcur) eqn:Elt.
+  - apply Z.ltb_lt in Elt. apply IH.
+    + now rewrite swap_length.
+    + lia.
+    + split.
+      * intros p Hp Hpc c vp vc Hc. rewrite !(nth_error_swap b cur child vcur vch) by auto.
+        destruct (Nat.eq_dec p cur) as [->|Hpcur].
+        -- rewrite Nat.eqb_refl. intros Hvp. injection Hvp as <-.
+           destruct (c =? cur)%nat eqn:Ecc; [apply Nat.eqb_eq in Ecc; lia|].
+           destruct (c =? child)%nat eqn:Ecch.
+           ++ intros Hvc. injection Hvc as <-. lia.
+           ++ apply Nat.eqb_neq in Ecch. intros Hvc.
+              destruct Hc as [->| ->]; destruct Hcc as [Hcc|Hcc]; try lia.
+              ** rewrite E0 in Hvc. injection Hvc as <-. lia.
+              ** now apply Hv1.
+        -- destruct (p =? cur)%nat eqn:E1; [apply Nat.eqb_eq in E1; lia|].
+           destruct (p =? child)%nat eqn:E2; [apply Nat.eqb_eq in E2; lia|].
+           intros Hvp. destruct (c =? cur)%nat eqn:E3.
+           ++ apply Nat.eqb_eq in E3. subst c. intros Hvc. injection Hvc as <-.
+              apply (H2 p child vp vch); auto.
+           ++ destruct (c =? child)%nat eqn:E4; [apply Nat.eqb_eq in E4; lia|].
+              intros Hvc. apply (H1 p Hp Hpcur c vp vc); auto.
+      * intros pp c vpp vc Hpp Hpar Hc. assert (pp = cur) by lia. subst pp.
+        rewrite !(nth_error_swap b cur child vcur vch) by auto. rewrite Nat.eqb_refl.
+        intros Hvpp. injection Hvpp as <-.
+        destruct (c =? cur)%nat eqn:E3; [apply Nat.eqb_eq in E3; lia|].
+        destruct (c =? child)%nat eqn:E4; [apply Nat.eqb_eq in E4; lia|].
+        intros Hvc. apply (H1 child ltac:(lia) ltac:(lia) c vch vc); auto.
+    + pose proof (half_lt _ _ Ecur). lia.
+  - apply Z.ltb_ge in Elt. intros p Hp. destruct (Nat.eq_dec p cur) as [->|Hpc]; [|now apply H1].
+    intros c vp vc Hc Hvp Hvc. rewrite Ecv in Hvp. injection Hvp as <-.
+    destruct Hc as [->| ->].
+    + rewrite E0 in Hvc. injection Hvc as <-. lia.
+    + specialize (Hv1 _ Hvc). lia.
+Qed.
+
+Lemma heap_from_half k (b : list A) : length b = k -> heap_from (k / 2) b.
+Proof.
+  intros Hlen p Hp c vp vc Hc _ Hvc. exfalso.
+  assert ((c < length b)%nat) by (apply nth_error_Some; congruence).
+  assert (Hk : (k <= 2 * p + 1)%nat) by (apply half_ge; lia). lia.
+Qed.
+
+Lemma heapify_heap k (b : list A) : length b = k -> heap_from 0 (heapify amt k b).
+Proof.
+  intros Hlen. unfold heapify.
+  assert (H : forall n b, (n <= k / 2)%nat -> length b = k -> heap_from n b ->
+              heap_from 0 (fold_left (fun b i => adjust amt k k b i) (rev (seq 0 n)) b)).
+  { induction n as [|n IH]; intros b0 Hn Hl Hh; [exact Hh|].
+    rewrite seq_S, rev_app_distr. simpl. apply IH; try lia.
+    - now rewrite adjust_length.
+    - apply adjust_heap; auto; try lia.
+      + split.
+        * intros p Hp Hne. apply Hh. lia.
+        * intros pp c vpp vc Hpp Hpar. lia.
+      + pose proof (Nat.mul_div_le k 2 ltac:(lia)). lia. }
+  apply H; auto. now apply heap_from_half.
+Qed.
+
+(* the root of a heap is a minimum *)
+Lemma root_min (b : list A) r : heap_from 0 b -> nth_error b 0 = Some r ->
+  forall j v, nth_error b j = Some v -> amt r <= amt v.
+Proof.
+  intros Hh Hr j. induction j as [j IH] using lt_wf_ind. intros v Hv.
+  destruct j as [|j]; [rewrite Hr in Hv; injection Hv as <-; lia|].
+  set (p := (j / 2)%nat).
+  assert (Hj : (S j = 2 * p + 1 \/ S j = 2 * p + 2)%nat).
+  { unfold p. pose proof (Nat.div_mod j 2 ltac:(lia)). pose proof (Nat.mod_upper_bound j 2 ltac:(lia)). lia. }
+  assert (Hpl : (p < length b)%nat).
+  { assert ((S j < length b)%nat) by (apply nth_error_Some; congruence). lia. }
+  destruct (nth_error b p) as [vp|] eqn:Ep; [|apply nth_error_None in Ep; lia].
+  assert (amt r <= amt vp) by (apply (IH p); auto; lia).
+  assert (amt vp <= amt v) by (apply (Hh p ltac:(lia) (S j) vp v); auto). lia.
+Qed.
+
+(* ---- multiset invariant of the selector over the coins not above the required amount *)
+Definition le_part (req : Z) (l : list A) : list A := filter (fun x => negb (req <? amt x)) l.
+
+Definition topk_inv (k : nat) (req : Z) (s : tk A) (P : list A) : Prop :=
+  exists rest, Permutation (tk_base s ++ rest) (le_part req P) /\
+    ((length (tk_base s) < k)%nat -> rest = []) /\
+    (length (tk_base s) = k -> heap_from 0 (tk_base s)) /\
+    (forall x y, In x rest -> In y (tk_base s) -> amt x <= amt y) /\
+    (length (tk_base s) <= k)%nat /\
+    (tk_guard s = None -> le_part req P = P).
+
+Lemma le_part_app req l1 l2 : le_part req (l1 ++ l2) = le_part req l1 ++ le_part req l2.
+Proof. unfold le_part. apply filter_app. Qed.
+
+Lemma submit_topk k req s x P : topk_inv k req s P -> topk_inv k req (submit amt k req s x) (P ++ [x]).
+Proof.
+  intros [rest [Hp [Hr [Hh [Hle [Hlen Hg]]]]]]. destruct s as [base guard].
+  unfold topk_inv, submit in *. cbn [tk_base tk_guard] in *. rewrite le_part_app.
+  assert (Hlx : le_part req [x] = if req <? amt x then [] else [x]).
+  { unfold le_part. simpl. destruct (req <? amt x); reflexivity. }
+  rewrite Hlx. clear Hlx.
+  destruct (req <? amt x) eqn:Hx.
+  - (* above the required amount: only the guard can change *)
+    exists rest. rewrite app_nil_r.
+    destruct guard as [g|]; [destruct (amt x <? amt g)|]; cbn [tk_base tk_guard];
+      repeat split; auto; discriminate.
+  - assert (HgP : guard = None -> le_part req P ++ [x] = P ++ [x]) by (intros E; now rewrite (Hg E)).
+    destruct (length base <? k)%nat eqn:Hlt.
+    + apply Nat.ltb_lt in Hlt. specialize (Hr Hlt). subst rest. rewrite app_nil_r in Hp.
+      assert (Hlb : length (base ++ [x]) = S (length base)) by (rewrite app_length; simpl; lia).
+      destruct (length (base ++ [x]) =? k)%nat eqn:Ek; cbn [tk_base tk_guard]; exists []; rewrite app_nil_r.
+      * apply Nat.eqb_eq in Ek.
+        assert (Hlh : length (heapify amt k (base ++ [x])) = k)
+          by (rewrite (Permutation_length (heapify_perm _ amt k _)); exact Ek).
+        repeat split; auto; try lia.
+        -- eapply perm_trans; [apply heapify_perm|]. now apply Permutation_app_tail.
+        -- intros _. now apply heapify_heap.
+        -- intros x0 y [].
+      * apply Nat.eqb_neq in Ek. repeat split; auto; try lia.
+        -- now apply Permutation_app_tail.
+        -- intros x0 y [].
+    + apply Nat.ltb_ge in Hlt. assert (Hk : length base = k) by lia.
+      destruct base as [|r t].
+      * (* k = 0 *)
+        cbn [tk_base tk_guard]. exists (rest ++ [x]). simpl in *.
+        repeat split; auto; try lia; try (now apply Permutation_app_tail); try (intros x0 y _ []).
+      * specialize (Hh Hk).
+        assert (Hroot : forall y, In y (r :: t) -> amt r <= amt y).
+        { intros y Hy. apply In_nth_error in Hy. destruct Hy as [j Hj].
+          apply (root_min (r :: t) r Hh eq_refl j y Hj). }
+        destruct ((0 <? k)%nat && (amt r <? amt x))%bool eqn:Eb; cbn [tk_base tk_guard].
+        -- apply andb_true_iff in Eb. destruct Eb as [_ Eb]. apply Z.ltb_lt in Eb.
+           assert (Hal : length (adjust amt k k (x :: t) 0) = k) by (rewrite adjust_length; simpl in *; lia).
+           pose proof (adjust_perm _ amt k k (x :: t) 0) as Hap.
+           exists (r :: rest). repeat split; auto; try lia.
+           ++ eapply perm_trans; [apply Permutation_app_tail; exact Hap|].
+              eapply perm_trans; [|apply Permutation_app_tail; exact Hp].
+              eapply perm_trans; [|apply Permutation_cons_append].
+              simpl. apply perm_skip. apply Permutation_sym. apply Permutation_middle.
+           ++ intros _. apply adjust_heap; auto; try lia.
+              ** simpl in *. lia.
+              ** split.
+                 --- intros p _ Hp0 c vp vc Hc Hvp Hvc. destruct p as [|p]; [lia|].
+                     assert (c = S (c - 1))%nat as Ec by lia. rewrite Ec in Hvc. simpl in Hvp, Hvc.
+                     apply (Hh (S p) ltac:(lia) c vp vc); auto. rewrite Ec. simpl. exact Hvc.
+                 --- intros pp c vpp vc _ Hpar. lia.
+           ++ intros x0 y Hx0 Hy. apply (Permutation_in _ Hap) in Hy.
+              destruct Hx0 as [<-|Hx0].
+              ** destruct Hy as [<-|Hy]; [lia|]. apply Hroot. now right.
+              ** destruct Hy as [<-|Hy].
+                 --- specialize (Hle x0 r Hx0 (or_introl eq_refl)). lia.
+                 --- apply Hle; auto. now right.
+        -- exists (rest ++ [x]). repeat split; auto; try lia.
+           ++ rewrite app_assoc. now apply Permutation_app_tail.
+           ++ intros x0 y Hx0 Hy. apply in_app_or in Hx0. destruct Hx0 as [Hx0|[<-|[]]]; [now apply Hle|].
+              apply andb_false_iff in Eb. destruct Eb as [Eb|Eb].
+              ** apply Nat.ltb_ge in Eb. simpl in Hk. lia.
+              ** apply Z.ltb_ge in Eb. specialize (Hroot y Hy). lia.
+Qed.
+
+Lemma tk_run_topk k req l : topk_inv k req (tk_run amt k req l) l.
+Proof.
+  unfold tk_run.
+  assert (H : forall l s P, topk_inv k req s P -> topk_inv k req (fold_left (submit amt k req) l s) (P ++ l)).
+  { induction l0 as [|x t IH]; intros s P Hs; simpl; [now rewrite app_nil_r|].
+    replace (P ++ x :: t) with ((P ++ [x]) ++ t) by (now rewrite <- app_assoc).
+    apply IH. now apply submit_topk. }
+  apply (H l (mkTk [] None) []). exists []. simpl. repeat split; auto; try lia.
+  - intros _ p _ c vp vc _ Hvp. destruct p; discriminate.
+  - intros x y [].
+Qed.
+
+(* a group of at most |base| coins never beats the heap: threshold argument *)
+Lemma sum_amt_shift (f : A -> Z) m (l : list A) :
+  sum_amt (fun x => f x - m) l = sum_amt f l - m * Z.of_nat (length l).
+Proof. induction l as [|x t IH]; [simpl; lia|]. cbn [sum_amt fold_right length]. fold (sum_amt (fun x => f x - m) t). fold (sum_amt f t). rewrite IH. lia. Qed.
+
+Lemma sum_amt_le (f g : A -> Z) (l : list A) : Forall (fun x => f x <= g x) l -> sum_amt f l <= sum_amt g l.
+Proof. induction 1; simpl; [lia|]. fold (sum_amt f l). fold (sum_amt g l). lia. Qed.
+
+Lemma sum_amt_eq0 (f : A -> Z) (l : list A) : Forall (fun x => f x = 0) l -> sum_amt f l = 0.
+Proof. induction 1; simpl; [lia|]. fold (sum_amt f l). lia. Qed.
+
+Lemma threshold_max (base rest T : list A) m :
+  0 <= m -> (forall y, In y base -> m <= amt y) -> (forall x, In x rest -> amt x <= m) ->
+  subperm T (base ++ rest) -> (length T <= length base)%nat -> sum T <= sum base.
+Proof.
+  intros Hm Hb Hr Hs Hl.
+  set (pp := fun x => Z.max 0 (amt x - m)).
+  assert (H1 : sum_amt (fun x => amt x - m) T <= sum_amt pp T).
+  { apply sum_amt_le. rewrite Forall_forall. intros x _. unfold pp. lia. }
+  assert (H2 : sum_amt pp T <= sum_amt pp (base ++ rest)).
+  { apply subperm_sum; auto. rewrite Forall_forall. intros x _. unfold pp. lia. }
+  assert (H3 : sum_amt pp rest = 0).
+  { apply sum_amt_eq0. rewrite Forall_forall. intros x Hx. unfold pp. specialize (Hr x Hx). lia. }
+  assert (H4 : sum_amt pp base <= sum_amt (fun x => amt x - m) base).
+  { apply sum_amt_le. rewrite Forall_forall. intros x Hx. unfold pp. specialize (Hb x Hx). lia. }
+  rewrite sum_amt_app in H2. rewrite !sum_amt_shift in *. nia.
+Qed.
+
+Lemma guard_bound k req l g : tk_guard (tk_run amt k req l) = Some g -> req < amt g.
+Proof. intros H. now apply (proj2 (tk_run_bounds _ amt k req l)). Qed.
+
+(* The selector's coins are at least as good as any k coins of the list: if some group of at
+   most k coins reaches the required amount, so do the coins the selector keeps. *)
+Theorem top_k_covers k req (l T : list A) :
+  Forall (fun x => 0 <= amt x) l -> subperm T l -> (length T <= k)%nat ->
+  req <= sum T -> req <= sum (top_k amt k req l).
+Proof.
+  intros Hpos Hs Hl Hreq.
+  destruct (tk_run_topk k req l) as [rest [Hp [Hr [Hh [Hle [Hlen Hg]]]]]].
+  pose proof (tk_run_inv _ amt k req l (mkTk [] None) []) as Hinv.
+  destruct Hinv as [Hsub _]; [split; [apply subperm_nil|simpl; lia]|]. simpl in Hsub.
+  fold (tk_run amt k req l) in Hsub.
+  unfold top_k, tk_items in *. set (s := tk_run amt k req l) in *.
+  assert (Hbpos : Forall (fun x => 0 <= amt x) (tk_base s)).
+  { eapply Forall_subperm; [|exact Hpos]. eapply subperm_app_inv_l. exact Hsub. }
+  destruct (tk_guard s) as [g|] eqn:Eg.
+  - apply guard_bound in Eg. rewrite sum_amt_app. simpl.
+    pose proof (sum_amt_nonneg _ amt _ Hbpos). lia.
+  - rewrite app_nil_r. rewrite (Hg eq_refl) in Hp.
+    assert (Hs' : subperm T (tk_base s ++ rest)).
+    { eapply subperm_trans; [exact Hs|]. apply subperm_perm. now apply Permutation_sym. }
+    destruct (Nat.lt_ge_cases (length (tk_base s)) k) as [Hlt|Hge].
+    + rewrite (Hr Hlt), app_nil_r in Hs'.
+      pose proof (subperm_sum _ amt _ _ Hs' Hbpos). lia.
+    + assert (Hk : length (tk_base s) = k) by lia.
+      destruct (tk_base s) as [|r t] eqn:Eb.
+      * simpl in Hk. subst k. destruct T; [|simpl in Hl; lia]. simpl in *. lia.
+      * assert (Hroot : forall y, In y (r :: t) -> amt r <= amt y).
+        { intros y Hy. apply In_nth_error in Hy. destruct Hy as [j Hj].
+          rewrite Eb in Hh. apply (root_min (r :: t) r (Hh Hk) eq_refl j y Hj). }
+        assert (sum T <= sum (r :: t)); [|lia].
+        apply (threshold_max (r :: t) rest T (amt r)); auto.
+        -- inversion Hbpos; auto.
+        -- intros x Hx. apply Hle; auto. now left.
+        -- lia.
+Qed.
+
+End HeapProofs.
